@@ -6,6 +6,7 @@ import os.path
 import random
 
 import c03_invisible
+import c03_requote
 import canon_common as cc
 import lib
 import norm_common as nc
@@ -14,7 +15,8 @@ import urlgen
 ID = "C03"
 LEAN_MODULE = "UralModel.Props.C03"
 # the string level (cleaning of the canonical form): Props/C03Control.lean, same namespace
-EXTRA_IMPORTS = ["UralModel.Props.C03Control"]
+# quoted mode (the exclusion of (a)/(c1) made independent of the regenerated tables): Props/C03Requote.lean
+EXTRA_IMPORTS = ["UralModel.Props.C03Control", "UralModel.Props.C03Requote"]
 THEOREMS = [
     "Ural.Props.C03.normalize_factors",
     "Ural.Props.C03.normalize_canonicalize_partial",
@@ -35,6 +37,11 @@ THEOREMS = [
     "Ural.Props.C03.canonical_form_has_no_cleaned_character",
     "Ural.Props.C03.clean_canonical",
     "Ural.Props.C03.normalize_cleaning_canonical_partial",
+    # Props/C03Requote.lean: quoted mode under an exclusion no table can widen (from unsafe_sets_requote_safe)
+    "Ural.Props.C03.requote_round_trip_components",
+    "Ural.Props.C03.quotedClean_of_quotedDelimFree",
+    "Ural.Props.C03.normalize_canonicalize_quoted_partial",
+    "Ural.Props.C03.normalize_of_canon_eq_quoted_partial",
 ]
 TABLE_OBLIGATIONS = [
     "Ural.Props.C03.tables_unsafe_sets",
@@ -45,13 +52,21 @@ TABLE_OBLIGATIONS = [
     "Ural.Props.C03.reparse_separators_stay_escaped",
     "Ural.Props.C03.parser_removals_are_cleaned",
     "Ural.Props.C03.escape_recognisers_agree",
+    # Props/C03Requote.lean: UNSAFE_FOR_* vs the regenerated safe set of safely_quote
+    "Ural.Props.C03.quote_safe_set_model",
+    "Ural.Props.C03.unsafe_sets_requote_safe",
 ]
 RULE = (
     "A case is a collision class: [stream 'inv', harness/c03_invisible.py, right after the corpus] a control / "
     "white-space / invisible character — every range boundary of the REGENERATED classes of CONTROL_CHARS_RE, str.strip, "
     "NON_PRINTABLE_RE and of urlsplit's own removals, a fixed list of Unicode format characters, the ASCII characters a "
     "component reserves — spelled raw / with upper-case / lower-case escapes in 14 shapes (path, query key, value, "
-    "fragment, userinfo, ends of the URL; the shapes of seeded C03-3 and of 5de5f5e); [otherwise] "
+    "fragment, userinfo, ends of the URL; the shapes of seeded C03-3 and of 5de5f5e); [stream 'requote', "
+    "harness/c03_requote.py, mostly quoted=True] every printable ASCII character the real safely_quote escapes and every "
+    "byte of the REGENERATED UNSAFE_FOR_* sets, spelled raw / %XX / %xx in a query value of a repeated key, a key, a "
+    "lone key, next to a sibling item that continues with a character between '%' and the character in code-point "
+    "order (nearest to either end and the middle one; thorough: all), and in path segments / index file / fragment / "
+    "tracking key; [otherwise] "
     "a base URL (structured components over the quantifier's token "
     "alphabet, normalize-specific hosts / tails / tracking items) and up to 4 members obtained by "
     "compositions of <= 3 spelling transformations — C02's (scheme/host case, explicit default port, "
@@ -282,6 +297,10 @@ def cases(rng, tier):
     # invisible / control / white-space characters, raw and escaped, in every text component
     # (characters from the regenerated classes: harness/c03_invisible.py)
     for c in c03_invisible.cases(tier):
+        yield c
+    # quoted mode: what safely_quote escapes / what the unquoters keep escaped, raw and escaped, next to a
+    # sibling item that sorts between the two spellings (characters from the tree under test: harness/c03_requote.py)
+    for c in c03_requote.cases(tier):
         yield c
     c02 = sorted(urlgen.C02_TRANSFORMS)
     nts = sorted(N_TRANSFORMS)
@@ -526,26 +545,47 @@ def kf_index_case(case, failure):
     return root.lower() in ("index", "default") and root not in ("index", "default")
 
 
+def _escape_value_eq(x):
+    """x with every raw '=' inside a query value spelled '%3D' (None: there is none)"""
+    s = cc.clean_impl(x, "https")
+    body, h, frag = s.partition("#")
+    head, qm, query = body.partition("?")
+    items, hit = [], False
+    for item in query.split("&"):
+        k, eq, v = item.partition("=")
+        if "=" in v:
+            hit = True
+            v = v.replace("=", "%3D")
+        items.append(k + eq + v)
+    return head + qm + "&".join(items) + h + frag if hit else None
+
+
 def kf_quoted_raw_delim(case, failure):
     """KF-C03-4 (the KF-C02-1 family seen from C03): in quoted mode a raw '=' in a query value
-    (':' / '@' in the userinfo) is escaped by canonicalize_url(quoted=True) and stays escaped,
-    so normalize_url sorts '%3D' where it sorted '='."""
-    from urllib.parse import urlsplit
+    is escaped by canonicalize_url(quoted=True) and stays escaped, so normalize_url sorts '%3D'
+    where it sorted '='.  Recognised: quoted mode, a string of the failing relation holds a raw
+    '=' inside a query value, AND the relation holds once those are spelled '%3D' (so a failure
+    that has another cause is not swallowed because such an item happens to be around)."""
+    from ural import canonicalize_url, normalize_url
 
     t = _tail(failure)
     if not t["quoted"] or t["rel"] not in ("a", "c1"):
         return False
-    for x in (t["u"], t["v"]):
-        if x is None:
-            continue
-        try:
-            r = urlsplit(cc.clean_impl(x, "https"))
-        except ValueError:
-            continue
-        for item in r.query.split("&"):
-            if "=" in item and "=" in item.split("=", 1)[1]:
-                return True
-    return False
+    try:
+        fixed = [(_escape_value_eq(x) if x is not None else None) for x in (t["u"], t["v"])]
+    except Exception:  # noqa
+        return False
+    if fixed[0] is None and fixed[1] is None:
+        return False
+    u = fixed[0] if fixed[0] is not None else t["u"]
+    v = fixed[1] if fixed[1] is not None else t["v"]
+    kw = {"quoted": True, "platform_aware": t["pa"]}
+    try:
+        if t["rel"] == "c1":
+            return normalize_url(canonicalize_url(u, quoted=True), **kw) == normalize_url(u, **kw)
+        return normalize_url(u, **kw) == normalize_url(v, **kw)
+    except Exception:  # noqa
+        return False
 
 
 KF_PREDICATES = [kf_redirect_hint, kf_platform_aware, kf_index_case, kf_quoted_raw_delim]
